@@ -15,6 +15,7 @@ import Cjet.Props.C12
 import Cjet.Props.C16
 import Cjet.Props.C17
 import Cjet.Props.C18
+import Cjet.Props.Evloop
 
 namespace Cjet.Props.C06
 
@@ -70,5 +71,14 @@ theorem table_wf_run : type_of% @Cjet.Props.C17.wf_run := @Cjet.Props.C17.wf_run
 /-! ### UTF-8 validation of close reasons never depends on how the bytes are presented (utf8_checker.c) -/
 
 theorem utf8_entry_points_preserve_ok : type_of% @Cjet.Utf8.entry_points_preserve_ok := @Cjet.Utf8.entry_points_preserve_ok
+
+/-! ### epoll dispatcher never calls through an io_event that a callback of the same batch removed (and normally freed) (eventloop_epoll.c) -/
+
+theorem evloop_no_call_after_remove : type_of% @Cjet.Props.Evloop.no_call_after_remove := @Cjet.Props.Evloop.no_call_after_remove
+theorem evloop_no_call_after_remove_across_batches : type_of% @Cjet.Props.Evloop.no_call_after_remove_across_batches := @Cjet.Props.Evloop.no_call_after_remove_across_batches
+theorem evloop_use_after_remove_before_fix : type_of% @Cjet.Props.Evloop.no_call_after_remove_counterexample_before_fix := @Cjet.Props.Evloop.no_call_after_remove_counterexample_before_fix
+theorem evloop_calls_are_for_the_harvested_event : type_of% @Cjet.Props.Evloop.calls_are_for_the_harvested_event := @Cjet.Props.Evloop.calls_are_for_the_harvested_event
+theorem evloop_pending_cleared_between_batches : type_of% @Cjet.Props.Evloop.pending_cleared_between_batches := @Cjet.Props.Evloop.pending_cleared_between_batches
+theorem evloop_remove_outside_dispatch_touches_no_array : type_of% @Cjet.Props.Evloop.remove_outside_dispatch_touches_no_array := @Cjet.Props.Evloop.remove_outside_dispatch_touches_no_array
 
 end Cjet.Props.C06
